@@ -185,6 +185,12 @@ func (d *Datastore) handleGetDataUpdatesJSON(ctx context.Context, name string, r
 				return ctx.Err()
 			case upd, ok := <-in:
 				if !ok {
+					// the reader also closes the channel when it gives up because the
+					// context is done: what was read so far is incomplete then (list
+					// entries without their keys) and must not be rendered
+					if err := ctx.Err(); err != nil {
+						return err
+					}
 					break OUTER
 				}
 
